@@ -3,4 +3,266 @@ import MelModel.Chain
 import MelModel.Lemmas.Counts
 import MelModel.Lemmas.FeeMult
 namespace Mel
+open Mel.Gen
+
+/-! ### `bytesLt` is a strict total order -/
+
+theorem bytesLt_cons (a b : UInt8) (as bs : List UInt8) :
+    bytesLt (a :: as) (b :: bs) =
+      if a.toNat < b.toNat then true else if b.toNat < a.toNat then false else bytesLt as bs := by
+  simp [bytesLt, UInt8.lt_iff_toNat_lt]
+
+theorem bytesLt_irrefl (a : List UInt8) : bytesLt a a = false := by
+  induction a with
+  | nil => rfl
+  | cons x xs ih => rw [bytesLt_cons]; simp [ih]
+
+theorem bytesLt_trans : ∀ (a b c : List UInt8),
+    bytesLt a b = true → bytesLt b c = true → bytesLt a c = true
+  | [], [], _, h, _ => by simp [bytesLt] at h
+  | [], _ :: _, [], _, h => by simp [bytesLt] at h
+  | [], _ :: _, _ :: _, _, _ => by simp [bytesLt]
+  | _ :: _, [], _, h, _ => by simp [bytesLt] at h
+  | _ :: _, _ :: _, [], _, h => by simp [bytesLt] at h
+  | a :: as, b :: bs, c :: cs, h1, h2 => by
+    have ih := bytesLt_trans as bs cs
+    rw [bytesLt_cons] at h1 h2 ⊢
+    by_cases hab : a.toNat < b.toNat
+    · by_cases hbc : b.toNat < c.toNat
+      · rw [if_pos (by omega)]
+      · rw [if_neg hbc] at h2
+        by_cases hcb : c.toNat < b.toNat
+        · rw [if_pos hcb] at h2; cases h2
+        · rw [if_pos (by omega)]
+    · rw [if_neg hab] at h1
+      by_cases hba : b.toNat < a.toNat
+      · rw [if_pos hba] at h1; cases h1
+      · rw [if_neg hba] at h1
+        by_cases hbc : b.toNat < c.toNat
+        · rw [if_pos (by omega)]
+        · rw [if_neg hbc] at h2
+          by_cases hcb : c.toNat < b.toNat
+          · rw [if_pos hcb] at h2; cases h2
+          · rw [if_neg hcb] at h2
+            rw [if_neg (by omega), if_neg (by omega)]
+            exact ih h1 h2
+
+theorem bytesLt_asymm (a b : List UInt8) (h : bytesLt a b = true) : bytesLt b a = false := by
+  cases hba : bytesLt b a with
+  | false => rfl
+  | true =>
+    have := bytesLt_trans a b a h hba
+    rw [bytesLt_irrefl] at this; cases this
+
+theorem bytesLt_total : ∀ (a b : List UInt8), bytesLt a b = false → bytesLt b a = false → a = b
+  | [], [], _, _ => rfl
+  | [], _ :: _, h, _ => by simp [bytesLt] at h
+  | _ :: _, [], _, h => by simp [bytesLt] at h
+  | a :: as, b :: bs, h1, h2 => by
+    rw [bytesLt_cons] at h1 h2
+    by_cases hab : a.toNat < b.toNat
+    · rw [if_pos hab] at h1; cases h1
+    · by_cases hba : b.toNat < a.toNat
+      · rw [if_pos hba] at h2; cases h2
+      · rw [if_neg hab, if_neg hba] at h1
+        rw [if_neg hba, if_neg hab] at h2
+        have : a = b := UInt8.toNat_inj.mp (by omega)
+        rw [this, bytesLt_total as bs h1 h2]
+
+theorem bytesLt_ne {a b : List UInt8} (h : bytesLt a b = true) : a ≠ b := by
+  intro e; subst e; rw [bytesLt_irrefl] at h; cases h
+
+/-! ### `insertTx` on sorted lists -/
+
+/-- `h` is below the hash of the head (if any) -/
+def HeadGt (h : Hash) (l : List Tx) : Prop := ∀ t, l.head? = some t → bytesLt h t.hash = true
+
+theorem HeadGt_nil (h : Hash) : HeadGt h [] := by intro t ht; cases ht
+
+theorem HeadGt_cons (h : Hash) (t : Tx) (l : List Tx) : HeadGt h (t :: l) ↔ bytesLt h t.hash = true := by
+  constructor
+  · intro H; exact H t rfl
+  · intro H t' ht'; cases ht'; exact H
+
+theorem HeadGt_insertTx (h : Hash) (l : List Tx) (tx : Tx) (hl : HeadGt h l)
+    (hx : bytesLt h tx.hash = true) : HeadGt h (State.insertTx l tx) := by
+  cases l with
+  | nil => simpa [State.insertTx, HeadGt_cons] using hx
+  | cons t rest =>
+    rw [HeadGt_cons] at hl
+    unfold State.insertTx
+    split
+    · rw [HeadGt_cons]; exact hx
+    · split
+      · rw [HeadGt_cons]; exact hx
+      · rw [HeadGt_cons]; exact hl
+
+/-- pairwise form of sortedness -/
+def TxLt (a b : Tx) : Prop := bytesLt a.hash b.hash = true
+
+theorem insertTx_append_of_all_lt (l : List Tx) (x : Tx) (h : ∀ t ∈ l, TxLt t x) :
+    State.insertTx l x = l ++ [x] := by
+  induction l with
+  | nil => rfl
+  | cons t rest ih =>
+    have ht : TxLt t x := h t (List.mem_cons_self ..)
+    unfold State.insertTx
+    rw [if_neg (bytesLt_ne ht), bytesLt_asymm _ _ ht]
+    simp only [Bool.false_eq_true, if_false, List.cons_append]
+    rw [ih (fun t' ht' => h t' (List.mem_cons_of_mem _ ht'))]
+
+theorem foldl_insertTx_pairwise (l : List Tx) : ∀ (acc : List Tx), List.Pairwise TxLt (acc ++ l) →
+    l.foldl State.insertTx acc = acc ++ l := by
+  induction l with
+  | nil => intro acc _; simp
+  | cons x xs ih =>
+    intro acc hp
+    rw [List.foldl_cons]
+    have hacc : ∀ t ∈ acc, TxLt t x := by
+      intro t ht
+      exact (List.pairwise_append.mp hp).2.2 t ht x (List.mem_cons_self ..)
+    rw [insertTx_append_of_all_lt acc x hacc]
+    have : acc ++ x :: xs = (acc ++ [x]) ++ xs := by simp
+    rw [this] at hp ⊢
+    exact ih _ hp
+
+/-! ### `tips` is untouched by Melmint and the TIP-909 subsidy -/
+
+def SameTips (s s' : State) : Prop := s'.tips = s.tips
+
+theorem SameTips.refl (s : State) : SameTips s s := rfl
+
+theorem SameTips.trans {a b c : State} (h1 : SameTips a b) (h2 : SameTips b c) : SameTips a c :=
+  Eq.trans h2 h1
+
+theorem processSwapsForPool_tips (k : PoolKey) (s : State) (swaps : List Tx) (s' : State)
+    (h : processSwapsForPool k s swaps = .ok s') : SameTips s s' := by
+  unfold processSwapsForPool at h
+  split at h
+  · cases h
+  · simp only at h
+    split at h
+    · cases h
+    · cases h
+    · obtain ⟨coins, _, h2⟩ := Outcome.bind_eq_ok h
+      cases h2; exact rfl
+
+theorem processSwaps_tips (s s' : State) (h : processSwaps s = .ok s') : SameTips s s' := by
+  unfold processSwaps at h
+  exact Outcome.foldlM'_inv (SameTips s) _
+    (fun b a b' hb hf => hb.trans (processSwapsForPool_tips _ _ _ _ hf)) _ _ _ (SameTips.refl s) h
+
+theorem processDepositsForPool_tips (env : Env) (k : PoolKey) (s : State) (deps : List Tx) (s' : State)
+    (h : processDepositsForPool env k s deps = .ok s') : SameTips s s' := by
+  unfold processDepositsForPool at h
+  simp only at h
+  split at h
+  · cases h
+  · cases h
+  · obtain ⟨coins, _, h2⟩ := Outcome.bind_eq_ok h
+    cases h2; exact rfl
+
+theorem processDeposits_tips (env : Env) (s s' : State) (h : processDeposits env s = .ok s') :
+    SameTips s s' := by
+  unfold processDeposits at h
+  exact Outcome.foldlM'_inv (SameTips s) _
+    (fun b a b' hb hf => hb.trans (processDepositsForPool_tips _ _ _ _ _ hf)) _ _ _ (SameTips.refl s) h
+
+theorem processWithdrawalsForPool_tips (k : PoolKey) (s : State) (reqs : List Tx) (s' : State)
+    (h : processWithdrawalsForPool k s reqs = .ok s') : SameTips s s' := by
+  unfold processWithdrawalsForPool at h
+  simp only at h
+  split at h
+  · cases h
+  · split at h
+    · cases h; exact SameTips.refl _
+    · split at h
+      · cases h
+      · cases h
+      · obtain ⟨coins, _, h2⟩ := Outcome.bind_eq_ok h
+        cases h2; exact rfl
+
+theorem processWithdrawals_tips (env : Env) (s s' : State) (h : processWithdrawals env s = .ok s') :
+    SameTips s s' := by
+  unfold processWithdrawals at h
+  exact Outcome.foldlM'_inv (SameTips s) _
+    (fun b a b' hb hf => hb.trans (processWithdrawalsForPool_tips _ _ _ _ hf)) _ _ _ (SameTips.refl s) h
+
+theorem createBuiltins_tips (s : State) : SameTips s (createBuiltins s) := rfl
+
+theorem processPegging_tips (s s' : State) (h : processPegging s = .ok s') : SameTips s s' := by
+  unfold processPegging at h
+  simp only at h
+  obtain ⟨⟨a, b⟩, _, h⟩ := Outcome.bind_eq_ok h
+  simp only at h
+  obtain ⟨sm, _, h⟩ := Outcome.bind_eq_ok h
+  split at h
+  · cases h
+  · obtain ⟨sm1, _, h⟩ := Outcome.bind_eq_ok h
+    obtain ⟨sm2, _, h⟩ := Outcome.bind_eq_ok h
+    cases h; exact rfl
+
+theorem presealMelmint_tips (env : Env) (s s' : State) (h : presealMelmint env s = .ok s') :
+    SameTips s s' := by
+  unfold presealMelmint at h
+  simp only at h
+  split at h
+  · cases h
+  · obtain ⟨s1, h1, h⟩ := Outcome.bind_eq_ok h
+    obtain ⟨s2, h2, h⟩ := Outcome.bind_eq_ok h
+    obtain ⟨s3, h3, h⟩ := Outcome.bind_eq_ok h
+    exact ((((createBuiltins_tips s).trans (processSwaps_tips _ _ h1)).trans
+      (processDeposits_tips _ _ _ h2)).trans (processWithdrawals_tips _ _ _ h3)).trans
+      (processPegging_tips _ _ h)
+
+theorem applyTip909_tips (s s' : State) (h : applyTip909 s = .ok s') : SameTips s s' := by
+  unfold applyTip909 at h
+  simp only at h
+  split at h
+  · cases h
+  · split at h
+    · cases h
+    · obtain ⟨⟨sm', mel, x⟩, _, h⟩ := Outcome.bind_eq_ok h
+      simp only at h
+      split at h
+      · cases h
+      · split at h
+        · cases h
+        · obtain ⟨⟨es', y, z⟩, _, h⟩ := Outcome.bind_eq_ok h
+          cases h; exact rfl
+
+theorem collectProposerFee_tips (env : Env) (s : State) (a : ProposerAction) (s' : State)
+    (h : collectProposerFee env s a = .ok s') : s'.tips = 0 := by
+  unfold collectProposerFee at h
+  simp only at h
+  split at h
+  · cases h
+  · cases h; rfl
+
+/-- the state just before the proposer action is applied has the original tips -/
+theorem sealState_pre_tips (env : Env) (s : State) (action : Option ProposerAction) (ss : Sealed)
+    (h : sealState env s action = .ok ss) :
+    ∃ s2, SameTips s s2 ∧
+      (match action with
+       | none => Outcome.ok ({ st := s2, action := none } : Sealed)
+       | some a => (applyProposerAction env s2 a).bind fun s3 => .ok ({ st := s3, action := some a } : Sealed))
+        = .ok ss := by
+  unfold sealState at h
+  obtain ⟨s1, h1, h⟩ := Outcome.bind_eq_ok h
+  split at h
+  · cases h
+  · obtain ⟨s2, h2, h⟩ := Outcome.bind_eq_ok h
+    refine ⟨s2, (presealMelmint_tips _ _ _ h1).trans ?_, h⟩
+    split at h2
+    · exact applyTip909_tips _ _ h2
+    · cases h2; exact SameTips.refl _
+
+/-! ### coins -/
+
+theorem getCoin_insertCoin_self (m : CoinMap) (id : CoinID) (d : CoinDataHeight) (tip : Bool) :
+    (m.insertCoin id d tip).getCoin id = some d := by
+  unfold CoinMap.insertCoin CoinMap.getCoin
+  simp only
+  split <;> exact AList.get_set_self _ _ _
+
 end Mel
